@@ -78,4 +78,15 @@ def ownNodesB (cells : List Elem) : Bool :=
 def distinctKeysB (cells : List Elem) : Bool :=
   cells.all fun c => let ks := (elemFaces c).map key; ks.all fun k => ks.count k == 1
 
+/-- hypothesis of `C12_hex_sign_meanplane` (strict form) for every own face `g` of the cell, with the outward doubled vector
+    area `areaVec2` of `g` as the normal: every cell vertex that is not a node of `g` lies strictly on the inner side of the
+    MEAN plane of `g` (through the vertex mean of `g`): `Σ_{q ∈ g} (q − p)·S > 0`.  Evaluated by the driver (`c12.meanplane`)
+    on the meshes of the stream `warped-layers` (hexahedra with skew faces). -/
+def meanPlaneB (pt : Nat → V3 Rat) (c : Elem) : Bool :=
+  (elemFaces c).all fun g =>
+    let fp := g.map pt
+    let n : V3 Rat := areaVec2 fp
+    (c.conn.filter fun v => !g.contains v).all fun v =>
+      decide ((0 : Rat) < (fp.map fun q => V3.dot (V3.sub q (pt v)) n).foldr (· + ·) 0)
+
 end Femio.C12
